@@ -20,6 +20,54 @@ def run(ctx):
     gm.rule_boundary_as_rect(ctx, "R07.6", ctx.tier)
     from rules import boolxfer as bx
     bx.run_table(ctx, "R07.7", bx.GDS_EXPORT + bx.GDS_IMPORT)
+    # ---- R07.4b a path's label lies on the path: it is computed from two adjacent vertices (a point of one segment) or validated by contains()
+    ctx.rule("R07.4b", "a path's label point is a point of one of its segments: it is computed from two adjacent vertices only (or accepted by the path's own containment test)")
+    from analysis.walk import Walker
+    ps = [f for f in F.fns.values() if f.id.startswith(rg.PFX) and f.trait and "PlaceLabels" in f.trait and (f.self_ty or {}).get("s", "").endswith("geom::Path")]
+    if len(ps) != 1:
+        ctx.error("R07.4b", "Path::label_location not found")
+    else:
+        f = ps[0]
+        b = Body(f)
+        guarded = [bi for bi, t in b.calls() if re.search(r"ShapeTrait>::contains$", callee_name(t) or "")]
+        w = Walker(f, max_visits=1, follow_errors=False, max_paths=2000)
+        rets = []
+        w.run(on_return=lambda p: rets.append(p.env.get(0)))
+        idxs, other = set(), set()
+
+        def scan(t, depth=0):
+            if not isinstance(t, tuple) or depth > 30:
+                return
+            if t and t[0] == "call":
+                n = t[1] or ""
+                if re.search(r"ops::Index<.*>>::index$", n) and len(t[2]) == 2:
+                    ix = t[2][1]
+                    if ix[0] == "const" and ix[2] is not None:
+                        idxs.add(ix[2])
+                    else:
+                        other.add("a computed index")
+                elif re.search(r"::(first|last|get|iter|len|last_mut|first_mut)$", n):
+                    other.add(n.split("::")[-1] + "()")
+                for o in t[2]:
+                    scan(o, depth + 1)
+            elif t and t[0] in ("agg", "op"):
+                for o in t[2]:
+                    scan(o, depth + 1)
+            elif t and t[0] in ("f", "v", "i"):
+                if t[0] == "i":
+                    (idxs.add(t[2]) if isinstance(t[2], int) and t[2] >= 0 else other.add("a computed index"))
+                scan(t[1], depth + 1)
+        for r in rets:
+            if r is not None and not (r[0] == "agg" and str(r[1]).endswith("::Err")):
+                scan(r)
+        adjacent = idxs and not other and max(idxs) - min(idxs) <= 1
+        if adjacent:
+            ctx.ok("R07.4b", f.short, "label computed from vertices %s of the path" % sorted(idxs))
+        elif guarded:
+            ctx.ok("R07.4b", f.short, "label validated by contains()")
+        else:
+            ctx.violation("R07.4b", f.short, "%s computes the label from %s: for a path with a bend that point need not lie on the path, and the net name is lost on import" % (
+                f.short, ", ".join(sorted(other) + ["vertices %s" % sorted(idxs)] if idxs else sorted(other)) or "no vertex"), "%s:%d" % (f.sp[0], f.sp[1]), f.short)
     # ---- R07.4 polygon label lies inside: every Ok return of Polygon::label_location is guarded by contains()
     ctx.rule("R07.4", "a polygon's label point is only returned after the polygon's own containment test accepted that point")
     fs = [f for f in F.fns.values() if f.id.startswith(rg.PFX) and f.trait and "PlaceLabels" in f.trait and (f.self_ty or {}).get("s", "").endswith("geom::Polygon")]
